@@ -1419,7 +1419,10 @@ def generate_property_setter(
     ret_type = func_ir.ret_type
     emitter.emit_line(f"{emitter.ctype(ret_type)} retval = {emitter.c_undefined_value(ret_type)};")
     if arg_type.is_unboxed:
-        emitter.emit_unbox("value", "tmp", arg_type, error=ReturnHandler("-1"), declare_dest=True)
+        # Borrow: the native setter does not take ownership of its argument.
+        emitter.emit_unbox(
+            "value", "tmp", arg_type, error=ReturnHandler("-1"), declare_dest=True, borrow=True
+        )
         emitter.emit_line(
             f"retval = {NATIVE_PREFIX}{func_ir.cname(emitter.names)}((PyObject *) self, tmp);"
         )
